@@ -4,13 +4,13 @@ package main
 
 import (
 	"fmt"
-	"regexp"
 	"go/ast"
 	"go/parser"
 	"go/token"
 	"go/types"
 	"os"
 	"path/filepath"
+	"regexp"
 	"sort"
 	"strings"
 	"sync"
@@ -781,7 +781,7 @@ func (c *FnCtx) ghostAssignFinal(st *State, cl *Clause, sig *types.Signature, fs
 	c.openBound = c.openBound[:len(c.openBound)-1]
 	nw := c.newHeapVersion(key)
 	c.declared[nw] = true
-		c.isMacro[nw] = true
+	c.isMacro[nw] = true
 	c.emit(fmt.Sprintf("(define-fun %s ((%s Int)) Int %s)", nw, bv, body))
 	st.heaps[key] = nw
 }
